@@ -17,10 +17,12 @@ def fresh_ro(ids, item_ids, c0):
     return B.running_order(stories, lead=3, trail=1)
 
 
-def make_msg(op, ids, item_ids, n0, c0, c1):
+def make_msg(op, ids, item_ids, n0, c0, c1, n1=None):
     """The payload-carrying message (a new object with the same content on every call)."""
     if op in ('roStoryAppend', 'roStoryInsert', 'roStoryReplace', 'EAStoryInsert', 'EAStoryReplace'):
         st = [rich_story(n0, c0, c1)]
+        if n1 is not None:
+            st = [rich_story(n1, c0, c1), rich_story(n0, c0, c1)]     # the edited one is the SECOND carried story
         return {'roStoryAppend': lambda: M.story_append(st),
                 'roStoryInsert': lambda: M.story_insert(ids[0], st),
                 'roStoryReplace': lambda: M.story_replace(ids[0], st),
@@ -28,6 +30,8 @@ def make_msg(op, ids, item_ids, n0, c0, c1):
                 'EAStoryReplace': lambda: M.ea_story_replace(ids[0], st)}[op]()
     if op in ('roItemInsert', 'roItemReplace', 'EAItemInsert', 'EAItemReplace'):
         it = [rich_item(n0, c0, c1)]
+        if n1 is not None:
+            it = [rich_item(n1, c0, c1), rich_item(n0, c0, c1)]
         return {'roItemInsert': lambda: M.item_insert(ids[0], item_ids[0], it),
                 'roItemReplace': lambda: M.item_replace(ids[0], item_ids[0], it),
                 'EAItemInsert': lambda: M.ea_item_insert(ids[0], item_ids[0], it),
@@ -96,7 +100,8 @@ def sharing_cell(P, A):
     item_ids = [A['i0'], A['i1']]
     n0, c0, c1 = A['n0'], A['c0'], A['c1']
     ro1 = fresh_ro(ids, item_ids, c0)
-    msg = make_msg(op, ids, item_ids, n0, c0, c1)
+    n1 = A.get('n1')
+    msg = make_msg(op, ids, item_ids, n0, c0, c1, n1)
     msg_snap = B.snap(msg.xml)
     sig = None
     o = B.merge(ro1, msg)
@@ -119,7 +124,7 @@ def sharing_cell(P, A):
     if sig is None:
         ro2 = fresh_ro(ids, item_ids, c0)
         ro2f = fresh_ro(ids, item_ids, c0)
-        msgf = make_msg(op, ids, item_ids, n0, c0, c1)
+        msgf = make_msg(op, ids, item_ids, n0, c0, c1, n1)
         a = B.merge(ro2, msg)
         b = B.merge(ro2f, msgf)
         if a.raised != b.raised or a.cats() != b.cats():
